@@ -33,6 +33,32 @@ CHECKS = {
         "Trusted: reference model (mc/ref.py legal_moves). Classes with more than class_cap members "
         "(disconnected scalars) are only checked for soundness up to the cap. Bounds in evidence.",
         "DESIGN.md 4/C06"),
+    "C01": (
+        "explicit-state BFS over operation chains of the real API (OpExplorer) with a well-typedness "
+        "invariant evaluated on every reached state and, through the DISCOPY_VERIF hook, on every "
+        "diagram constructed inside library code; exhaustive negative alphabet of ill-typed requests",
+        "From every seed diagram of the bounded monoidal and rigid universes every enabled public "
+        "operation with every argument choice (slices incl. reversed partial ones, dagger, interchange, "
+        "every yielded normalize/foliate step, normal_form, foliation, flatten, then/tensor with a pool, "
+        "permute, transpose, functor images, downgrade, subs) is executed up to the chain bound; the "
+        "reference scan (boxes/offsets reach cod, each box finds its dom, layers agree) must hold on "
+        "every value returned or internally constructed. Every ill-typed request of the negative "
+        "alphabet must raise or return a value that passes the scan.",
+        "Trusted: mc/ref.py scan. Other diagram classes are covered by the class sections listed in the "
+        "evidence bounds and by the scans embedded in C04/C07/C10/C13/C17/C18. Bounds in evidence.",
+        "DESIGN.md 4/C01"),
+    "C10": (
+        "exhaustive enumeration of all permutations / swap widths / malformed requests up to the bound "
+        "in every class, executed on the real builders and checked with an independent label tracer",
+        "Every permutation of length <= bound (all classes: monoidal, rigid, tensor, circuit, zx; via "
+        "permutation(), permute() and the default domain), every swap(l, r) up to the width bound and "
+        "every non-permutation/length mismatch up to length 3 are executed; the result must consist of "
+        "adjacent swaps only, carry input wire i to position perm[i] (labels pushed through the swaps), "
+        "have the permuted domain as codomain, pass the C01 scan and evaluate to the permutation matrix "
+        "where the class can be evaluated; malformed requests must raise ValueError.",
+        "Trusted: label tracer and permutation-matrix builder in mc/c10.py, numpy. The class of the "
+        "returned diagram is deliberately not asserted.",
+        "DESIGN.md 4/C10"),
 }
 
 PENDING_REASON = ("check not built yet in this session (planned: bounded exhaustive exploration as in "
